@@ -49,16 +49,16 @@ RUN_PROFILES = {
 }
 
 PROPS = {
-    "C01": dict(kind="run", proj="P_C01", mon="mon_C01",
+    "C01": dict(kind="run", proj="P_C01", mon="mon_C01", property_files=("Refinement",),
                 profiles=["default", "imm", "sync", "loops", "parallel", "parloop", "react", "react_loops"],
                 quick=240, thorough=6000, finding_profiles=["react_all", "parloop_all"]),
-    "C02": dict(kind="run", proj="P_seq", mon="mon_true", property_files=("C02net",),
+    "C02": dict(kind="run", proj="P_seq", mon="mon_true", property_files=("C02net", "Refinement"),
                 profiles=["blocks", "default", "imm", "loops", "react_loops"], quick=240, thorough=6000,
                 finding_profiles=["parloop_all", "parloop_mix"]),
-    "C03": dict(kind="run", proj="P_set", mon="mon_true",
+    "C03": dict(kind="run", proj="P_set", mon="mon_true", property_files=("Refinement",),
                 profiles=["parallel", "parloop", "react"], quick=240, thorough=6000,
                 finding_profiles=["parloop_all"]),
-    "C04": dict(kind="run", proj="P_C04", mon="mon_C04ctx", property_files=("C04ctx",),
+    "C04": dict(kind="run", proj="P_C04", mon="mon_C04ctx", property_files=("C04ctx", "Refinement"),
                 profiles=["cond", "default", "react_loops"], quick=240, thorough=6000,
                 finding_profiles=["parloop_all"]),
     "C05": dict(kind="run", proj="P_seq", mon="mon_true",
@@ -66,7 +66,7 @@ PROPS = {
                 finding_profiles=["parloop_all", "parloop_mix"]),
     "C06": dict(kind="run", proj="P_set", mon="mon_true",
                 profiles=["parloop", "react_parloop"], quick=240, thorough=6000, finding_profiles=["parloop_all", "parloop_mix"]),
-    "C07": dict(kind="run", proj="P_ids", mon="mon_C07",
+    "C07": dict(kind="run", proj="P_ids", mon="mon_C07", property_files=("Refinement",),
                 profiles=["default", "imm", "parallel", "loops", "parloop", "react", "react_loops", "uuid_loops_calls"],
                 quick=240, thorough=6000, finding_profiles=["react_all", "parloop_all"]),
     "C08": dict(kind="run", proj="P_C08", mon="mon_C08",
